@@ -31,6 +31,7 @@ type Report struct {
 	PkgOrder     []string
 	PluginOrder  []string
 	BuildHooks   []string
+	Exits        []string
 	FilesChanged int
 }
 
@@ -227,6 +228,16 @@ func rewriteFile(p *packages.Package, f *ast.File, path, root string, rep *Repor
 				c.Replace(sim(n.Sel.Name))
 				rep.FSCalls = append(rep.FSCalls, site(n.Pos())+" os."+n.Sel.Name)
 				changed = true
+			} else if ok && isOS(id) && n.Sel.Name == "Exit" {
+				c.Replace(sim("Exit"))
+				rep.Exits = append(rep.Exits, site(n.Pos())+" os.Exit")
+				changed = true
+			} else if ok && (n.Sel.Name == "Fatal" || n.Sel.Name == "Fatalf" || n.Sel.Name == "Fatalln") {
+				if pn, isPkg := info.Uses[id].(*types.PkgName); isPkg && pn.Imported().Path() == "log" {
+					c.Replace(sim(n.Sel.Name))
+					rep.Exits = append(rep.Exits, site(n.Pos())+" log."+n.Sel.Name)
+					changed = true
+				}
 			}
 		case *ast.CallExpr:
 			if rangesOnly {
@@ -251,7 +262,7 @@ func rewriteFile(p *packages.Package, f *ast.File, path, root string, rep *Repor
 			}
 		case *ast.FuncDecl:
 			if !rangesOnly && p.Name == "main" && n.Name.Name == "main" && n.Recv == nil && n.Body != nil {
-				n.Body.List = append([]ast.Stmt{&ast.ExprStmt{X: &ast.CallExpr{Fun: sim("InstallBuildHooks")}}}, n.Body.List...)
+				n.Body.List = append([]ast.Stmt{&ast.ExprStmt{X: &ast.CallExpr{Fun: sim("InstallBuildHooks")}}, &ast.DeferStmt{Call: &ast.CallExpr{Fun: sim("AtExit")}}}, n.Body.List...)
 				rep.BuildHooks = append(rep.BuildHooks, site(n.Pos()))
 				changed = true
 			}
@@ -279,6 +290,9 @@ func rewriteFile(p *packages.Package, f *ast.File, path, root string, rep *Repor
 	astutil.AddImport(fset, f, simPath)
 	if !astutil.UsesImport(f, "os") {
 		astutil.DeleteImport(fset, f, "os")
+	}
+	if !astutil.UsesImport(f, "log") {
+		astutil.DeleteImport(fset, f, "log")
 	}
 	var buf bytes.Buffer
 	if err := format.Node(&buf, fset, f); err != nil {
